@@ -942,3 +942,49 @@ package queue
 //@   modifies durable, syncFullSet, signals
 //@   loop 1 invariant [ids_follow_the_fixed_parameters] rangeindex < len(ids) && len(args) == 1 + rangeindex + 1 && args[0] == "dead" && forall j int :: 0 <= j && j <= rangeindex ==> args[1 + j] == ids[j]
 //@   calls database/sql.(*DB).ExecContext requires [C14:dlq_delete_deletes_only_dead_rows_named_by_id] arg2 == "\nDELETE FROM queue_items\nWHERE state = ?\n  AND id IN (" + ext("strings.TrimRight", ext("strings.Repeat", "?,", len(ids)), ",") + ");" && len(arg3) == 1 + len(ids) && arg3[0] == "dead" && forall j int :: 0 <= j && j < len(ids) ==> arg3[1 + j] == ids[j]
+
+// ---- C14 on the SQLite boundary: by-filter selection (dynamic statement; text and parameters pinned) ----
+//@ spec
+//@ func effFilterLimit(n int) int := ite(n <= 0, 100, ite(n > 1000, 1000, n))
+//@ func filterParams(req MessageManageFilterRequest) int := ite(req.Route != "", 1, 0) + ite(req.Target != "", 1, 0) + ite(req.Before != 0, 1, 0)
+//@ ghost var lastSelectedIDs []string
+//@ ghost var selections int
+//@ func (*SQLiteStore).selectMessageIDsByFilter
+//@   requires s != nil && s.db != nil
+//@   modifies lastSelectedIDs, selections
+//@   sets lastSelectedIDs := result0
+//@   sets selections := old(selections) + 1
+//@   loop 1 invariant [allowed_set_is_the_allowed_prefix] allowedSet != nil && rangeindex < len(allowed) && forall st State :: st in allowedSet <==> exists j int :: 0 <= j && j <= rangeindex && allowed[j] == st
+//@   loop 2 ghost base int := len(args) step base
+//@   loop 2 invariant [shape] base == filterParams(req) && rangeindex < len(states) && len(args) == base + rangeindex + 1
+//@   loop 2 invariant [route_parameter_kept] req.Route != "" ==> args[0] == req.Route
+//@   loop 2 invariant [target_parameter_kept] req.Target != "" ==> args[ite(req.Route != "", 1, 0)] == req.Target
+//@   loop 2 invariant [before_parameter_kept] req.Before != 0 ==> args[base - 1] == unixNanoOf(req.Before)
+//@   loop 2 invariant [one_parameter_per_state] forall j int :: 0 <= j && j <= rangeindex ==> args[base + j] == string(states[j])
+//@   calls database/sql.(*DB).QueryContext requires [C14:selection_names_every_given_criterion_newest_first_capped] let n := ite(req.State != "", 1, len(allowed)) :: arg2 == "\nSELECT id\nFROM queue_items\nWHERE 1 = 1" + ite(req.Route != "", " AND route = ?", "") + ite(req.Target != "", " AND target = ?", "") + ite(req.Before != 0, " AND received_at < ?", "") + ite(n == 1, " AND state = ?", " AND state IN (" + ext("strings.TrimRight", ext("strings.Repeat", "?,", n), ",") + ")") + " ORDER BY received_at DESC, id DESC LIMIT ?" && len(arg3) == filterParams(req) + n + 1 && arg3[filterParams(req) + n] == effFilterLimit(req.Limit)
+//@   calls database/sql.(*DB).QueryContext requires [C14:selection_parameters_are_the_given_criteria] (req.Route != "" ==> arg3[0] == req.Route) && (req.Target != "" ==> arg3[ite(req.Route != "", 1, 0)] == req.Target) && (req.Before != 0 ==> arg3[filterParams(req) - 1] == unixNanoOf(req.Before))
+//@   calls database/sql.(*DB).QueryContext requires [C14:selection_state_parameters_are_within_the_operations_states] let n := ite(req.State != "", 1, len(allowed)) :: forall i int :: filterParams(req) <= i && i < filterParams(req) + n ==> arg3[i] == string(ite(req.State != "", req.State, allowed[i - filterParams(req)])) && (exists q int :: 0 <= q && q < len(allowed) && allowed[q] == ite(req.State != "", req.State, allowed[i - filterParams(req)]))
+//@   ensures [C14:a_named_state_outside_the_operations_states_selects_nothing] req.State != "" && !(exists j int :: 0 <= j && j < len(allowed) && allowed[j] == req.State) ==> len(result0) == 0 && result1 == nil
+
+// by-filter wrappers: select once with the property's state set; preview stops there; a real run changes exactly the selection
+//@ func (*SQLiteStore).CancelMessagesByFilter
+//@   requires s != nil && s.db != nil
+//@   modifies durable, syncFullSet, signals, lastSelectedIDs, selections
+//@   calls selectMessageIDsByFilter requires [C14:cancel_selects_only_queued_leased_dead] len(arg2) == 3 && arg2[0] == StateQueued && arg2[1] == StateLeased && arg2[2] == StateDead && arg1.Route == req.Route && arg1.Target == req.Target && arg1.State == req.State && arg1.Before == req.Before && arg1.Limit == req.Limit && selections == old(selections)
+//@   calls CancelMessages requires [C14:a_real_run_changes_exactly_the_selection_and_a_preview_changes_nothing] !req.PreviewOnly && arg1.IDs == lastSelectedIDs && selections == old(selections) + 1
+//@   ensures [C14:preview_reports_the_size_of_the_selection_a_real_run_would_make] result1 == nil && req.PreviewOnly ==> result0.PreviewOnly && result0.Canceled == 0 && result0.Matched == len(lastSelectedIDs) && selections == old(selections) + 1 && durable == old(durable)
+//@   ensures [C14:a_real_run_reports_the_selection_size_as_matched] result1 == nil && !req.PreviewOnly ==> result0.Matched == len(lastSelectedIDs) && selections == old(selections) + 1
+//@ func (*SQLiteStore).RequeueMessagesByFilter
+//@   requires s != nil && s.db != nil
+//@   modifies durable, syncFullSet, signals, lastSelectedIDs, selections
+//@   calls selectMessageIDsByFilter requires [C14:requeue_selects_only_dead_canceled] len(arg2) == 2 && arg2[0] == StateDead && arg2[1] == StateCanceled && arg1.Route == req.Route && arg1.Target == req.Target && arg1.State == req.State && arg1.Before == req.Before && arg1.Limit == req.Limit && selections == old(selections)
+//@   calls RequeueMessages requires [C14:a_real_run_changes_exactly_the_selection_and_a_preview_changes_nothing] !req.PreviewOnly && arg1.IDs == lastSelectedIDs && selections == old(selections) + 1
+//@   ensures [C14:preview_reports_the_size_of_the_selection_a_real_run_would_make] result1 == nil && req.PreviewOnly ==> result0.PreviewOnly && result0.Requeued == 0 && result0.Matched == len(lastSelectedIDs) && selections == old(selections) + 1 && durable == old(durable)
+//@   ensures [C14:a_real_run_reports_the_selection_size_as_matched] result1 == nil && !req.PreviewOnly ==> result0.Matched == len(lastSelectedIDs) && selections == old(selections) + 1
+//@ func (*SQLiteStore).ResumeMessagesByFilter
+//@   requires s != nil && s.db != nil
+//@   modifies durable, syncFullSet, signals, lastSelectedIDs, selections
+//@   calls selectMessageIDsByFilter requires [C14:resume_selects_only_canceled] len(arg2) == 1 && arg2[0] == StateCanceled && arg1.Route == req.Route && arg1.Target == req.Target && arg1.State == req.State && arg1.Before == req.Before && arg1.Limit == req.Limit && selections == old(selections)
+//@   calls ResumeMessages requires [C14:a_real_run_changes_exactly_the_selection_and_a_preview_changes_nothing] !req.PreviewOnly && arg1.IDs == lastSelectedIDs && selections == old(selections) + 1
+//@   ensures [C14:preview_reports_the_size_of_the_selection_a_real_run_would_make] result1 == nil && req.PreviewOnly ==> result0.PreviewOnly && result0.Resumed == 0 && result0.Matched == len(lastSelectedIDs) && selections == old(selections) + 1 && durable == old(durable)
+//@   ensures [C14:a_real_run_reports_the_selection_size_as_matched] result1 == nil && !req.PreviewOnly ==> result0.Matched == len(lastSelectedIDs) && selections == old(selections) + 1
